@@ -581,6 +581,8 @@ def build(spec, variant=None):
     for mo in spec['moments']:
         sel = scen_selector(fset, spec, mo['event'], rng)
         sel.exptset(S.build_rsome(mo['prims'], rso.E(z), rng))
+    if variant.get('after_sets'):
+        variant['after_sets'](B, rng)
     # probabilities
     p = m.p
     ps = spec['pset']
@@ -660,11 +662,19 @@ def build(spec, variant=None):
         else:
             m.st(x <= v['M'])
             m.st(x >= -v['M'])
-    for row in spec['rows']:
-        lhs = expr(row['e'])
+    B.add_row = None
+
+    def add_row(row, lhs=None):
+        lhs = expr(row['e']) if lhs is None else lhs
         if row['expect']:
             lhs = rso.E(lhs)
         m.st(lhs <= row['rhs'] if row['sense'] == 'le' else lhs >= row['rhs'])
+
+    B.add_row = add_row
+    for row in spec['rows']:
+        add_row(row)
+    if variant.get('after_rows'):
+        variant['after_rows'](B, rng)
     return B
 
 
